@@ -529,7 +529,7 @@ def contract_handler(c):
                     frame[n] = k
                 else:
                     raise Untranslatable(f"call of {c.name} by contract: missing argument {n}", node)
-        pure = (c.frame == [] and not c.raises_nondeterministic())
+        pure = (c.frame == [])
         memo_key = None
         if pure:
             try:
@@ -573,7 +573,13 @@ def contract_handler(c):
                 if c.result_kind is None:
                     result = NONE
                 elif isinstance(c.result_kind, Kind):
-                    result = fresh(c.result_kind, "res_" + c.name.split(".")[-1])
+                    if memo_key is not None:
+                        # pure call: the result is a function of (arguments, heap) -> deterministic name, so the
+                        # same call denotes the same value on every path and in every spec evaluation
+                        h = abs(hash(memo_key)) % (10 ** 12)
+                        result = V(c.result_kind, z3.Const(f"res!{c.name.split('.')[-1]}!{h}", c.result_kind.sort()))
+                    else:
+                        result = fresh(c.result_kind, "res_" + c.name.split(".")[-1])
                 else:
                     result = c.result_kind
                 stx.locals["result"] = result
@@ -593,3 +599,56 @@ def contract_handler(c):
             pass
     h.contract = c
     return h
+
+
+def seam_handler(seam, result_kind=None, may_raise=(), frame=()):
+    """Summary of a call that crosses a seam (remote door, test runner, back end ...).
+
+    The call is logged in ghost state: `<seam>.calls` (Int) is incremented, `<seam>.result` holds the returned
+    value (fresh, unconstrained: the environment may answer anything); it may raise any of `may_raise`."""
+    def h(eng, st, recv, args, kwargs, node):
+        calls = st.ghost.get(f"{seam}.calls")
+        if calls is None:
+            calls = V(INT, z3.Const(f"{seam}.calls0", z3.IntSort()))
+        outcomes = [(st, None)]
+        for exc in may_raise:
+            nxt = []
+            for stx, _ in outcomes:
+                b = fresh(BOOL, f"{seam}.raises.{exc}")
+                for sty, r in eng.fork(stx, b.term, f"seam.{seam}.raises.{exc}"):
+                    if r:
+                        sty.ghost[f"{seam}.calls"] = V(INT, calls.term + 1)
+                        eng.raise_exc(sty, exc, node)
+                    else:
+                        nxt.append((sty, None))
+            outcomes = nxt
+        for stx, _ in outcomes:
+            stx.ghost[f"{seam}.calls"] = V(INT, calls.term + 1)
+            for f in frame:
+                owner, field = f.split(".")
+                _, kind = eng.field_kind(owner, field)
+                stx.heap[f] = z3.Const(fresh_name("H_" + f), z3.ArraySort(RefSort, kind.sort()))
+                stx.writes.add(f)
+            if result_kind is None:
+                yield stx, NONE
+            else:
+                r = fresh(result_kind, f"{seam}.result")
+                stx.ghost[f"{seam}.result"] = r
+                yield stx, r
+    h.seam = seam
+    return h
+
+
+def ghost_reader(eng, st, args, kw, node):
+    """Spec function ghost("name"): current value of a ghost variable (0 for an untouched call counter)."""
+    ok, name = concrete(args[0])
+    v = st.ghost.get(name)
+    if v is None:
+        if name.endswith(".calls"):
+            v = V(INT, z3.Const(f"{name}0", z3.IntSort()))
+            st.ghost[name] = v
+        else:
+            # e.g. the result of a seam call that did not happen on this path: arbitrary value
+            k = args[1] if len(args) > 1 and isinstance(args[1], Kind) else BOOL
+            v = fresh(k, name + ".undefined")
+    yield st, v
